@@ -1,36 +1,80 @@
 package c07
 
 import (
+	"encoding/json"
 	"fmt"
 	"os"
-	"strings"
+	"sort"
+	"strconv"
 	"testing"
 
+	"github.com/tucats/ego/verif/workerproc"
 	"pgregory.net/rapid"
 )
 
-// development aid: outcome histogram of one generator class
-func TestSpeed(t *testing.T) {
-	if os.Getenv("C07_DEV") == "" {
+// Development aid (C07_SURVEY=<out.json> [C07_SURVEY_CLASS=sem]): run many
+// generated cases through the worker only (no CLI confirmation, no
+// shrinking) and record, per crash signature, the shortest source seen. Used
+// to enumerate root causes on the unchanged tree before triage.
+func TestSurvey(t *testing.T) {
+	outFile := os.Getenv("C07_SURVEY")
+	if outFile == "" {
 		t.Skip()
 	}
+	type hit struct {
+		Sig    string `json:"sig"`
+		N      int    `json:"n"`
+		Entry  string `json:"entry"`
+		Header string `json:"header"`
+		Src    string `json:"src"`
+		Case   Case   `json:"case"`
+	}
+	hits := map[string]*hit{}
 	hist := map[string]int{}
-	msgs := map[string]int{}
+	g := gen
+	if os.Getenv("C07_SURVEY_CLASS") == "sem" {
+		g = genSem
+	}
+	save := func() {
+		var hs []*hit
+		for _, h := range hits {
+			hs = append(hs, h)
+		}
+		sort.Slice(hs, func(i, j int) bool { return hs[i].Sig < hs[j].Sig })
+		b, _ := json.MarshalIndent(map[string]any{"hits": hs, "hist": hist}, "", " ")
+		_ = os.WriteFile(outFile, b, 0o644)
+	}
+	n := 0
 	rapid.Check(t, func(rt *rapid.T) {
-		c := genSem(rt)
+		c := g(rt)
 		src := c.Source()
 		v := thePool.exec(c, src)
-		r := v.res
-		hist[c.Entry+" "+v.status+" "+r.Phase]++
-		if r.Phase == "compile-error" || r.Phase == "error" {
-			m := r.Msg
-			if len(m) > 90 { m = m[:90] }
-			if i := strings.Index(m, ", "); i > 0 { m = m[i+2:] }
-			msgs[m]++
+		hist[c.Class+" "+c.Entry+" "+v.status+" "+v.res.Phase]++
+		sig := ""
+		if v.status == "crash" {
+			sig = v.crash.Sig
+		} else if v.res.Phase == "handler-panic-recovered" {
+			sig = "server-recovered " + workerproc.PanicSite(v.res.Stack)
 		}
-		if v.status == "crash" || r.Phase == "handler-panic-recovered" { fmt.Println("PANIC", v.crash.Sig, v.observed, r.GoPanic, string(src)) }
+		if sig != "" {
+			h := hits[sig]
+			if h == nil {
+				h = &hit{Sig: sig}
+				hits[sig] = h
+			}
+			h.N++
+			if h.Src == "" || len(src) < len(h.Src) {
+				h.Src, h.Entry, h.Header, h.Case = string(src), c.Entry, v.crash.Header+v.res.GoPanic, c
+			}
+		}
+		n++
+		if n%200 == 0 {
+			save()
+		}
 	})
-	fmt.Println(hist)
-	for k, v := range msgs { if v > 1 { fmt.Println(v, k) } }
-	thePool.w.Kill()
+	save()
+	fmt.Println("cases", n, "distinct sigs", len(hits), "->", outFile, strconv.Itoa(thePool.started), "workers")
+	if thePool.w != nil {
+		thePool.w.Kill()
+	}
 }
